@@ -381,6 +381,44 @@ theorem finv_enabled (s : State) (h : FInv s) (hnd : ¬ AllDone s) : ∃ i, Enab
     | write x => exact ⟨i, _, _, ht, rfl⟩
     | tau => exact ⟨i, _, _, ht, rfl⟩
 
+theorem enabled_iff (s : State) (i : Nat) : Enabled s i ↔ enabledB s i = true := by
+  unfold Enabled enabledB
+  cases h : s.rem[i]? with
+  | none => simp
+  | some t =>
+    cases t with
+    | nil => simp
+    | cons a r => simp
+
+theorem allDone_of_check (s : State) (h : s.rem.all List.isEmpty = true) : AllDone s := by
+  intro i t hi
+  rw [List.all_eq_true] at h
+  have := h t (List.mem_of_getElem? hi)
+  cases t with
+  | nil => rfl
+  | cons a r => simp at this
+
+/-- the computable check really is a deadlock -/
+theorem stuck_of_check (s : State) (h : stuckB s = true) : ¬ AllDone s ∧ ∀ i, ¬ Enabled s i := by
+  simp only [stuckB, Bool.and_eq_true, Bool.not_eq_true', List.all_eq_true, List.mem_range] at h
+  obtain ⟨h1, h2⟩ := h
+  refine ⟨?_, ?_⟩
+  · intro hd
+    have : s.rem.all List.isEmpty = true := by
+      rw [List.all_eq_true]
+      intro t ht
+      obtain ⟨i, hi⟩ := List.getElem?_of_mem ht
+      rw [hd i t hi]; rfl
+    rw [this] at h1; cases h1
+  · intro i hi
+    have hb := (enabled_iff s i).mp hi
+    obtain ⟨a, r, hr, _⟩ := hi
+    have hlt : i < s.rem.length := by
+      rcases Nat.lt_or_ge i s.rem.length with h' | h'
+      · exact h'
+      · rw [List.getElem?_eq_none h'] at hr; cases hr
+    rw [h2 i hlt] at hb; cases hb
+
 /-! ## … and every run can be completed -/
 
 def totalRem (s : State) : Nat := (s.rem.map List.length).sum
